@@ -474,6 +474,8 @@ class Sim(object):
             self.h["interim"] = [x for x in self.h["interim"] if x[:3] != list(a)]
         self.h["nexec"][a[0]] = self.h["nexec"].get(a[0], 0) + 1
         self.h["need_dispatch"] = True
+        if self.h.get("rendered"):
+            self.h["rendered"] = False  # the provider may render again after further reports
         res.extra["action"] = list(a)
         res.extra["status"] = status
         res.extra["result"] = result
